@@ -870,6 +870,7 @@ func cmdEncoder(f hx.Flags, r *hx.Result) {
 	}
 	r.NonTrivial(int64(distinct))
 	encFromMap(r, rng)
+	encAnyTable(r)
 }
 
 // encFromMap: map-sourced fields are emitted sorted by key, each value through the Any dispatch;
@@ -1048,4 +1049,152 @@ func cmdFileLine(f hx.Flags, r *hx.Result) {
 		}
 	}
 	r.NonTrivial(int64(n))
+}
+
+// ---------------------------------------------------------------- Any dispatch (C07)
+// encAnyTable: every Go type the Any constructor dispatches on - value, pointer (nil and non-nil) and
+// slice forms of bool, the ten integer types, two float types and string - must encode exactly like the
+// value itself: integers by exact decimal text, floats bit-exact, nil pointers as null, slices as arrays.
+func encAnyTable(r *hx.Result) {
+	type tc struct {
+		name string
+		v    any
+		want string // exact JSON text of the value
+	}
+	var cases []tc
+	add := func(name string, v any, want string) { cases = append(cases, tc{name, v, want}) }
+	ff := func(f float64) string { return strconv.FormatFloat(f, 'f', -1, 64) }
+	// bool
+	bt, bf := true, false
+	add("bool", true, "true")
+	add("*bool", &bf, "false")
+	add("*bool(nil)", (*bool)(nil), "null")
+	add("[]bool", []bool{bt, bf}, "[true,false]")
+	// signed
+	{
+		v := int(math.MinInt64)
+		add("int", v, strconv.Itoa(v))
+		add("*int", &v, strconv.Itoa(v))
+		add("*int(nil)", (*int)(nil), "null")
+		add("[]int", []int{v, -1, 0, math.MaxInt64}, fmt.Sprintf("[%d,-1,0,%d]", v, math.MaxInt64))
+	}
+	{
+		v := int8(math.MinInt8)
+		add("int8", v, "-128")
+		add("*int8", &v, "-128")
+		add("*int8(nil)", (*int8)(nil), "null")
+		add("[]int8", []int8{v, math.MaxInt8}, "[-128,127]")
+	}
+	{
+		v := int16(math.MinInt16)
+		add("int16", v, "-32768")
+		add("*int16", &v, "-32768")
+		add("*int16(nil)", (*int16)(nil), "null")
+		add("[]int16", []int16{v, math.MaxInt16}, "[-32768,32767]")
+	}
+	{
+		v := int32(math.MinInt32)
+		add("int32", v, "-2147483648")
+		add("*int32", &v, "-2147483648")
+		add("*int32(nil)", (*int32)(nil), "null")
+		add("[]int32", []int32{v, math.MaxInt32}, "[-2147483648,2147483647]")
+	}
+	{
+		v := int64(math.MinInt64)
+		add("int64", v, "-9223372036854775808")
+		add("*int64", &v, "-9223372036854775808")
+		add("*int64(nil)", (*int64)(nil), "null")
+		add("[]int64", []int64{v, math.MaxInt64}, "[-9223372036854775808,9223372036854775807]")
+	}
+	// unsigned
+	{
+		v := uint(math.MaxUint64)
+		add("uint", v, "18446744073709551615")
+		add("*uint", &v, "18446744073709551615")
+		add("*uint(nil)", (*uint)(nil), "null")
+		add("[]uint", []uint{v, 0}, "[18446744073709551615,0]")
+	}
+	{
+		v := uint8(math.MaxUint8)
+		add("uint8", v, "255")
+		add("*uint8", &v, "255")
+		add("*uint8(nil)", (*uint8)(nil), "null")
+		add("[]uint8", []uint8{v, 0, 7}, "[255,0,7]")
+	}
+	{
+		v := uint16(math.MaxUint16)
+		add("uint16", v, "65535")
+		add("*uint16", &v, "65535")
+		add("*uint16(nil)", (*uint16)(nil), "null")
+		add("[]uint16", []uint16{v, 1}, "[65535,1]")
+	}
+	{
+		v := uint32(math.MaxUint32)
+		add("uint32", v, "4294967295")
+		add("*uint32", &v, "4294967295")
+		add("*uint32(nil)", (*uint32)(nil), "null")
+		add("[]uint32", []uint32{v, 2}, "[4294967295,2]")
+	}
+	{
+		v := uint64(math.MaxUint64)
+		add("uint64", v, "18446744073709551615")
+		add("*uint64", &v, "18446744073709551615")
+		add("*uint64(nil)", (*uint64)(nil), "null")
+		add("[]uint64", []uint64{v, 1 << 63}, "[18446744073709551615,9223372036854775808]")
+	}
+	// floats
+	{
+		v := float32(0.1)
+		add("float32", v, ff(float64(v)))
+		add("*float32", &v, ff(float64(v)))
+		add("*float32(nil)", (*float32)(nil), "null")
+		add("[]float32", []float32{v, -2.5}, "["+ff(float64(v))+",-2.5]")
+	}
+	{
+		v := 5e-324
+		add("float64", v, ff(v))
+		add("*float64", &v, ff(v))
+		add("*float64(nil)", (*float64)(nil), "null")
+		add("[]float64", []float64{v, math.MaxFloat64, math.Copysign(0, -1)}, "["+ff(v)+","+ff(math.MaxFloat64)+",-0]")
+	}
+	// strings
+	{
+		v := "s\"q"
+		add("string", v, `"s\"q"`)
+		add("*string", &v, `"s\"q"`)
+		add("*string(nil)", (*string)(nil), "null")
+		add("[]string", []string{v, ""}, `["s\"q",""]`)
+	}
+	add("nil", nil, "null")
+	jl := &log.JSONLayout{BaseLayout: log.BaseLayout{FileLineLength: 48}}
+	tl := &log.TextLayout{BaseLayout: log.BaseLayout{FileLineLength: 48}}
+	for _, c := range cases {
+		for _, via := range []string{"Any", "FromMap"} {
+			var fields []log.Field
+			if via == "Any" {
+				fields = []log.Field{log.Any("v", c.v), log.Int("after", 1)}
+			} else {
+				fields = []log.Field{log.FieldsFromMap(map[string]any{"v": c.v}), log.Int("after", 1)}
+			}
+			e := &log.Event{Level: log.InfoLevel, Time: time.Unix(1e9, 0).UTC(), File: "f.go", Line: 1, Tag: "_t", Fields: fields}
+			var jb, tb []byte
+			desc := map[string]any{"go_type": c.name, "via": via}
+			if p := hx.Catch(func() { jb = jl.ToBytes(e); tb = tl.ToBytes(e) }); p != nil {
+				r.Violate("json-layout-panic", desc, "encoding a %s through %s panicked: %v", c.name, via, p)
+				continue
+			}
+			r.Eval(1)
+			wantJ := `"tag":"_t","v":` + c.want + `,"after":1}`
+			if !strings.HasSuffix(strings.TrimSuffix(string(jb), "\n"), wantJ) {
+				r.Violate("json-data:any-dispatch", desc, "%s(%s): JSON line ends %s, want %s", via, c.name, clip(string(jb[max(0, len(jb)-len(wantJ)-20):]), 200), wantJ)
+			}
+			wantT := c.want
+			if strings.HasPrefix(wantT, `"`) && !strings.HasPrefix(c.name, "[]") {
+				wantT = wantT[1 : len(wantT)-1]
+			}
+			if !strings.HasSuffix(string(tb), "||v="+wantT+"||after=1\n") {
+				r.Violate("text-differs-from-json-tokens", desc, "%s(%s): text line ends %s, want v=%s", via, c.name, clip(string(tb[max(0, len(tb)-len(wantT)-30):]), 200), wantT)
+			}
+		}
+	}
 }
